@@ -6226,11 +6226,26 @@ class CodegenCtx:
         
         # Create all transitions for possible conditions
         final_state = state
+        redirected_to = set()
         if unconditional_end_transition:
             result += self._generate_transition_body(unconditional_end_transition, True)
             # a taken end transition that isn't a fallthrough (those re-dispatch on their own) leaves us in its target
             if not unconditional_end_transition.is_fallthrough:
                 final_state = unconditional_end_transition.target
+                # ... unless one of its actions (a break under an if, ...) sent us somewhere else instead
+                for action in unconditional_end_transition.actions:
+                    for subaction in action.all_subactions():
+                        if subaction.get_target_override_mode() != ActionOverrideMode.NONE:
+                            redirected_to.update(subaction.get_target_override_targets())
+
+        # Where such a redirection ends in a state that answers differently, look at where we really are
+        answers_differently = sorted(self.dfa.states.index(x) for x in redirected_to if x in self.dfa.states and (x in self.dfa.accepting_states) != (final_state in self.dfa.accepting_states))
+        if answers_differently:
+            redirected = " || ".join(f"state->state == {x}" for x in answers_differently)
+            if final_state in self.dfa.accepting_states:
+                result.add(f"if ({redirected}) return {self.program_name.upper()}_FAIL;")
+            else:
+                result.add(f"if ({redirected}) return {self.program_name.upper()}_DONE;")
 
         if final_state in self.dfa.accepting_states:
             result.add(f"return {self.program_name.upper()}_DONE;")
